@@ -88,6 +88,16 @@ NAMED_ADAPTIVE = {
 }
 
 
+def replay(name, first_bad):
+    if name.startswith("tableaus") or "explicit_rk" in name or name.startswith("wrappers"):
+        return kit.concrete_replay("C07", ["named_schemes", "observed_order"])
+    if "setup" in name:
+        return kit.concrete_replay("C07", ["time_reversal"])
+    if "packer" in name or "tuple" in name:
+        return kit.concrete_replay("C07", ["tuple_state"])
+    return kit.concrete_replay("C07", ["adaptive_hard", "observed_order", "time_reversal"])
+
+
 def _eq(c, name, got, want):
     """ground rational identity as a z3 obligation"""
     c.prove(name, rat.q(F(got)) == rat.q(F(want)))
@@ -254,6 +264,8 @@ def _explicit_rk_loop_contract(lid, f, tab, params):
             ncalls = len([1 for nm, _ in ctx().calls[loop.head_ncalls:] if nm == f.name])
             # phi_spec above evaluated f len(b) more times (same arguments => same atoms)
             out.append(("exactly_s_evaluations_per_interval", ncalls == 2 * len(b_)))
+            out.append(("tableau_constants_enter_the_arithmetic_in_the_state_precision",
+                        not ctx().ghost.get("precision_events")))
             out.append(("nothing_else_appended", len(lst.tail) == (1 if lst.has_hidden() else 0)
                         and (lst.has_hidden() or len(lst.items) == 2)))
         return out
@@ -288,6 +300,8 @@ def unit_explicit_rk(nstages):
         c.check("result_has_one_entry_per_time_point", yt.shape[0] == nt)
         c.check("result_trailing_shape_is_state_shape", yt.shape[1:] == y0.shape)
         lst, d = yt._stack_of
+        c.check("tableau_constants_enter_the_arithmetic_in_the_state_precision", not c.ghost.get("precision_events"),
+                detail=str(c.ghost.get("precision_events", [])[:2]))
         c.check("result_is_stack_of_the_step_list_along_dim0", d == 0)
         c.check("result[0]_is_y0", lst[0] is y0)
         c.prove("canary", z3.BoolVal(False), kind="canary")
@@ -349,6 +363,8 @@ def unit_rk_step(n):
             if ok:
                 c.prove("K[%d]_is_stage_%d" % (s_, s_), K.rows[s_].v.eq(Ks[s_].v))
         c.check("n_function_evaluations_per_step", ncalls == n)
+        c.check("results_do_not_alias_the_stage_buffer", getattr(ynew, "_view_of", None) is None
+                and getattr(fnew, "_view_of", None) is None)
         c.prove("canary", z3.BoolVal(False), kind="canary")
     return kit.run_unit("rk_step[n=%d]" % n, run)
 
@@ -419,6 +435,8 @@ def unit_single_step(clsname, n=None):
         c.prove("not_achieved_implies_step_does_not_pass_t1", z3.Implies(z3.Not(ach), tnew.v.re <= t1.v.re))
         c.prove("time_advances", tnew.v.re > t0.v.re)
         c.prove("next_step_size_positive", hnew.v.re > 0)
+        c.check("returned_state_does_not_alias_the_stage_buffer", all(getattr(x, "_view_of", None) is None
+                                                                      for x in (fnew, tnew, ynew, hnew)))
         c.prove("canary", z3.BoolVal(False), kind="canary")
     ur = kit.run_unit("single_step[%s%s]" % (clsname, "" if n is None else ",n=%d" % n), run)
     ur.rewrites.append({"function": "adaptive_rk.RKAdaptiveStepSolver._single_step", "diff_lines": rw.diff.count("\n")})
